@@ -14,16 +14,18 @@
       if exception:  raise <an error carrying `text`>          -- C11: the backend failure reaches the caller
       (run_suites then returns `report.is_successful()`)
 
-  What becomes the pending failure — model of `AsyncEventManager._handler_loop` (lemoncheesecake/events.py):
+  What becomes the pending failure — model of `AsyncEventManager._handler_loop` (lemoncheesecake/events.py, after fix D42):
 
       try:    self.handle_event(event)               -- `for handler in handlers: handler(event)`
-      except Exception as excp:   self._pending_failure = excp, <text>;  break
+      except BaseException as excp:   self._pending_failure = excp, <text>;  break
       finally: self._queue.task_done()
 
-  `except Exception`: the classes the iteration protocols treat specially (StopIteration, StopAsyncIteration) are
-  ordinary Exceptions and are recorded like any other; a BaseException that is no Exception (GeneratorExit, SystemExit,
-  KeyboardInterrupt raised INSIDE a handler, on the event-handling thread) is not caught: the handler thread dies, no
-  pending failure is recorded (finding D42, open: `Props/C11.lean`).
+  EVERY exception a handler raises is recorded: the classes the iteration protocols treat specially (StopIteration,
+  StopAsyncIteration) like any other Exception, and — since fix D42 (`except BaseException`; before, `except Exception` let
+  them kill the event-handling thread silently) — the BaseExceptions that are no Exception (GeneratorExit, SystemExit,
+  KeyboardInterrupt raised INSIDE a handler, on the event-handling thread).  `_run_suites` then raises an error carrying the
+  text: an instance of the failure's own class when that class is an Exception (and can be built from one message), a
+  `LemoncheesecakeException` otherwise — a backend's `sys.exit()` must not end the caller's process.
 
   The facts this decision reads are finite; the table obtained by executing the real `run_suites` on every
   combination of (keyboard interrupt, reporting-backend failure) is re-proved equal to `outcome` on every run
@@ -54,15 +56,19 @@ def FaultClass.ofName (n : String) : FaultClass :=
   else if n == "GeneratorExit" then .generatorExit else if n == "SystemExit" then .systemExit
   else if n == "KeyboardInterrupt" then .keyboardInterrupt else .exception
 
-/-- `isinstance(excp, Exception)`: what the `except Exception` clause of `_handler_loop` catches -/
+/-- `isinstance(excp, Exception)` (read by `_run_suites` when it re-raises the pending failure) -/
 def FaultClass.isException : FaultClass → Bool
   | .generatorExit | .systemExit | .keyboardInterrupt => false
   | _ => true
 
-/-- `_handler_loop`: the pending failure after a handler raised an instance of class `c` with text `text`
-    (none pending before) -/
-def pendingAfter (c : FaultClass) (text : String) : Option String :=
-  if c.isException then some text else none
+/-- `_handler_loop` (`except BaseException`, fix D42): the pending failure after a handler raised an instance of class
+    `c` with text `text` (none pending before) — recorded whatever the class -/
+def pendingAfter (_c : FaultClass) (text : String) : Option String := some text
+
+/-- `_run_suites`: the error raised to the caller is a `LemoncheesecakeException` (not an instance of the failure's own
+    class) when the pending failure is not an `Exception` — SystemExit / KeyboardInterrupt / GeneratorExit never reach the
+    caller as such -/
+def reraisedAsFrameworkError (c : FaultClass) : Bool := !c.isException
 
 inductive TasksEnd | returns | raisesInternal | raisesKeyboardInterrupt
 deriving Repr, DecidableEq
